@@ -66,21 +66,25 @@ def relpath_posix(recwalk_result, pardir, fromwinpath=False):
 #    return not lst or [lst[0]]*len(lst) == lst
 
 def sort_dict_of_paths(d):
-    """ Sort a dict containing paths parts (ie, paths divided in parts and stored as a list). Top paths will be given precedence over deeper paths. """
-    def nonesorter(a):
-        """ Make None a sortable type (necessary for Python 3) """
+    """ Sort a dict containing paths parts (ie, paths divided in parts and stored as a list), in the order of a sorted recursive directory walk (recwalk): the files of a directory come first, then the content of each of its subdirectories. """
+    def pathkey(a):
+        """ Sorting key of a path: (list of parent directories, filename), which is the order followed by recwalk(sorting=True).
+        Leading empty parts (the padding added below, possibly by a previous call) are not part of the path. None (no path) comes first. """
         if not a:
-            return ['']
-        return a
+            return ([], '')
+        start = 0
+        while start < len(a) - 1 and a[start] == '':
+            start += 1
+        return (list(a[start:-1]), a[-1])
 
     # Find the path that is the deepest, and count the number of parts
     max_rec = max(len(x) if x else 0 for x in d.values())
-    # Pad other paths with empty parts to fill in, so that all paths will have the same number of parts (necessary to compare correctly, else deeper paths may get precedence over top ones, since the folder name will be compared to filenames!)
+    # Pad other paths with empty parts to fill in, so that all paths will have the same number of parts
     for key in d.keys():
         if d[key]:
             d[key] = ['']*(max_rec-len(d[key])) + d[key]
-    # Sort the dict relatively to the paths alphabetical order
-    d_sort = sorted(d.items(), key=lambda x: nonesorter(x[1]))
+    # Sort the dict relatively to the order of the directory walk (comparing the padded lists directly would put every shallower path before any deeper path, which is not the order in which the paths are walked, so the same file in different folders could be misaligned)
+    d_sort = sorted(d.items(), key=lambda x: pathkey(x[1]))
     return d_sort
 
 def sort_group(d, return_only_first=False):
